@@ -276,10 +276,11 @@ def exec1(ctx, fams, flavours):
             continue
         S, cfg = K.sites, K.cfg
         why = []
+        why0 = []
         if not cfg.dominates(S['EXEC'], S['CONTAINS']):
-            why.append('EXEC does not dominate the visited test')
+            why0.append('EXEC does not dominate the visited test')
         if cfg.dominates(S['CONTAINS'], S['EXEC']) and S['CONTAINS'] != S['EXEC']:
-            why.append('the visited test dominates EXEC (callback only sees unvisited targets)')
+            why0.append('the visited test dominates EXEC (callback only sees unvisited targets)')
         if not cfg.dominates(S['NEXT'], S['EXEC']):
             why.append('EXEC not dominated by next()')
         # every yielded edge reaches EXEC: from the Some edge of next() no path returns to next() avoiding EXEC
@@ -304,13 +305,19 @@ def exec1(ctx, fams, flavours):
                 break
         if some_t is None:
             why.append('cannot find the Some edge of next()')
-        elif _avoid_path(K, some_t, S['NEXT'], {S['EXEC']}):
-            why.append('a yielded edge can skip EXEC')
+        else:
+            if _avoid_path(K, some_t, S['NEXT'], {S['EXEC']}):
+                why0.append('a yielded edge can skip EXEC')
+            # for reachability it is enough that every edge into an *unvisited* node is offered to EXEC
+            avoid = {S['EXEC']} | ({K.vis_true[1]} if K.vis_true else set())
+            if _avoid_path(K, some_t, S['NEXT'], avoid):
+                why.append('a yielded edge can be dropped without being offered to EXEC although its far endpoint may be unvisited')
         # at most once per yielded edge: no cycle through EXEC that avoids next()
         et = K.b['blocks'][S['EXEC']]['term']['target']
         if et >= 0 and _avoid_path(K, et, S['EXEC'], {S['NEXT']}):
             why.append('EXEC can run twice for one yielded edge')
-        out.append(Obl('EXEC1', K.q, _w(F, K, 'EXEC'), 'callback first and exactly once per yielded edge', not why, '; '.join(why) if why else 'EXEC bb%d' % S['EXEC']))
+        out.append(Obl('EXEC1', K.q, _w(F, K, 'EXEC'), 'every yielded edge into an unvisited node is offered to EXEC, at most once', not why, '; '.join(why) if why else 'EXEC bb%d' % S['EXEC']))
+        out.append(Obl('EXEC0', K.q, _w(F, K, 'EXEC'), 'callback before the visited test, for every yielded edge', not (why or why0), '; '.join(why + why0) if (why or why0) else 'EXEC bb%d' % S['EXEC']))
     return out
 
 
